@@ -74,7 +74,7 @@ def external_solve(smt2: str, timeout_s: float):
 
 
 class Obligation:
-    __slots__ = ("label", "status", "backend", "time_s", "model", "path_id", "detail", "smt2", "kind", "reify")
+    __slots__ = ("label", "status", "backend", "time_s", "model", "path_id", "detail", "smt2", "kind", "reify", "inputs")
 
     def __init__(self, label, kind="vc"):
         self.label = label
@@ -87,6 +87,7 @@ class Obligation:
         self.detail = None
         self.smt2 = None
         self.reify = None
+        self.inputs = None
 
     def to_json(self):
         return {
@@ -98,6 +99,7 @@ class Obligation:
             "path": self.path_id,
             "detail": self.detail,
             "model": self.model,
+            "inputs": self.inputs,
         }
 
 
@@ -302,6 +304,13 @@ class Path:
             ob.status = "sat"
             m = s.model()
             ob.model = self._model_summary(m)
+            if self.inputs:
+                try:
+                    from .native import reify_inputs
+
+                    ob.inputs = reify_inputs(self, m)
+                except Exception as e:
+                    ob.inputs = None
             if reify is not None:
                 try:
                     ob.detail = reify(m)
